@@ -1,3 +1,3 @@
 """Reasons for properties that are not (yet) claimed, and the hook commits in /repo."""
 REASONS = {}
-HOOK_COMMITS = ["12b960b", "8c6d515", "540c0ff", "a6172d0", "e727bd6", "b4a2cc6", "23d6401", "550b74c", "98d0a03", "2a183a5", "4f2661b", "207a371", "a31e2d6", "3d80786", "bf1cb05", "c70bd00", "07b0435", "f81f273", "eef3ff5", "af3ecf7", "80c5075", "b339b1a", "ee3bae8", "a5e97b2", "10ec9f5", "a8c2e99"]
+HOOK_COMMITS = ["12b960b", "8c6d515", "540c0ff", "a6172d0", "e727bd6", "b4a2cc6", "23d6401", "550b74c", "98d0a03", "2a183a5", "4f2661b", "207a371", "a31e2d6", "3d80786", "bf1cb05", "c70bd00", "07b0435", "f81f273", "eef3ff5", "af3ecf7", "80c5075", "b339b1a", "ee3bae8", "a5e97b2", "10ec9f5", "a8c2e99", "dc83fb1"]
